@@ -53,6 +53,10 @@ mutual
     | .cons c cs => counterExact c && counterExacts cs
 end
 
+/-- What the per-template theorems evaluate: the root state gets a counter at all (some evaluating
+component is initialised outside every scope) and no scope shadows it. -/
+def counterExactTop (c : Comp) : Bool := insertsOutside c && counterExact c
+
 /-- The registry as far as `Evaluations` is concerned: one entry per open scope, innermost first. -/
 abbrev Counters := List (Option Nat)
 
@@ -135,7 +139,8 @@ def runC (o : COracle) (fuel : Nat) (c : Comp) : Option CSt :=
 
 inductive EClass where
   | eval        -- evaluates the current population (PopulationEvaluator)
-  | evalInPlace -- moves individuals and evaluates them itself (FireflyPositionsUpdate)
+  | evalInPlace -- moves individuals and evaluates them itself, possibly several times each, keeping only
+                -- the last value (FireflyPositionsUpdate): values are returned that end up in no population
   | update      -- BestIndividualUpdate
   | neutral     -- neither reads-and-discards nor changes any population
   | modify      -- may push, pop, replace or overwrite individuals
@@ -175,7 +180,7 @@ visible best-so-far record has not seen". `sh` = "a scope shadows the best-so-fa
 def etuLeaf (sh : Bool) (k : LeafKind) (p : Bool) : Option Bool :=
   match eclass k with
   | .eval => some true
-  | .evalInPlace => if p then none else some true
+  | .evalInPlace => none      -- intermediate evaluations of a moved individual are overwritten inside the component
   | .update => if sh then some p else some false
   | .neutral => some p
   | .modify => if p then none else some false
@@ -234,7 +239,11 @@ mutual
           let t := s.tick + 1
           match eclass k with
           | .eval => some { s with seen := omin s.seen (o.val s.tick), pend := omin s.pend (o.val s.tick), tick := t }
-          | .evalInPlace => some { s with seen := omin s.seen (o.val s.tick), pend := o.val s.tick, tick := t }
+          | .evalInPlace =>
+            -- `o.val tick`: minimum over ALL values returned inside the component;
+            -- `o.val (tick+1)`: minimum over the values the population finally carries
+            some { s with seen := omin (omin s.seen (o.val s.tick)) (o.val (s.tick + 1)), pend := o.val (s.tick + 1),
+                          tick := s.tick + 2 }
           | .update => if sh then some { s with tick := t }
                        else some { s with best := omin s.best s.pend, pend := none, tick := t }
           | .neutral => some { s with tick := t }
